@@ -92,6 +92,8 @@ pub struct SeededScheduler {
     taken: Vec<u32>,
     stalled: Option<(usize, u64)>,
     stall_done: bool,
+    /// a simulated sleep (100 ms) is far longer than any stall/starve window: it ends them
+    windows_over: bool,
 }
 
 impl SeededScheduler {
@@ -120,6 +122,7 @@ impl SeededScheduler {
             taken: vec![],
             stalled: None,
             stall_done: false,
+            windows_over: false,
         }
     }
 
@@ -186,6 +189,12 @@ impl Scheduler for SeededScheduler {
         let sc = tantivy::verif_sim::with_knobs(|k| k.sleep_count);
         if sc != self.last_sleep_count {
             self.last_sleep_count = sc;
+            // time passes while somebody sleeps: a thread held back by `stall`/`starve` gets the CPU
+            // long before a 100 ms sleep is over (otherwise lock retry loops would time out on a
+            // holder that the strategy, not the program, keeps from running)
+            self.windows_over = true;
+            self.stalled = None;
+            self.stall_done = true;
             if let (Some(c), true) = (cur, is_yielding) {
                 let others = ids.iter().filter(|i| **i != c).map(|i| (*i, SLEEP_QUANTUM)).collect();
                 self.sleepers.insert(c, others);
@@ -340,7 +349,7 @@ impl Scheduler for SeededScheduler {
                 Strategy::Starve { class, from, until } => {
                     let (from, until) = (*from, *until);
                     let mut c2: Vec<usize> = cand.clone();
-                    if self.steps >= from && self.steps < until {
+                    if self.steps >= from && self.steps < until && !self.windows_over {
                         let starved: Vec<usize> = runnable
                             .iter()
                             .filter(|t| name_of(t).starts_with(class.as_str()))
